@@ -1,6 +1,6 @@
 SPECIFICATION Spec
 CONSTANTS Cells = {1, 2} Algs = {0, 1, 2, 4} Keys = {1} Counts = {7} Bearers = {31} Dirs = {1}
-          Sym = {0, 1} MaxLen = 2 Pats <- AllPats MacVals <- TwoMacs Nil = Nil MaxPoints = 2 WithNil = FALSE
+          Sym = {0, 1} MaxLen = 2 Pats <- AllPats MacVals <- TwoMacs MaxRes = 0 MacTop = 1 Nil = Nil MaxPoints = 2 WithNil = FALSE
 INVARIANTS TypeOK Accounting LengthPreserved Involution PrefixStable KsIndependent
 PROPERTIES ErrUntouched GuardExact NullIdentity MacShape MacPure
 CHECK_DEADLOCK FALSE
